@@ -1,68 +1,186 @@
 #!/usr/bin/env python3
 """C20 — balance in shared memory and .PASSWDS: proofs in coq/Props/C20.v; histories of SetUMoney / DeUMoney /
-MoneyOf on a real segment and a real .PASSWDS; model correspondence and direct predicates against plain arithmetic."""
+MoneyOf, interleaved with every other writer of the user's record (passwdSyncUpdate and its callers, one-field
+updates), on a real segment and a real .PASSWDS; model correspondence and direct predicates against plain arithmetic."""
 import os, struct, sys
 sys.path.insert(0, os.path.join(os.path.dirname(os.path.abspath(__file__)), "..", "lib"))
 import vf
 
 I32MAX, I32MIN = 2**31 - 1, -2**31
 SET, DE, GET, QUERY = 1, 2, 3, 4
+# the other writers of the same user's record (ptt layer / cmbbs), interleaved with the money operations
+REWRITE, SETPERM, START, END, KILL, PASSWD, EMAIL, INCPOST = 5, 6, 7, 8, 9, 10, 11, 12
+MONEY_OPS = (SET, DE, GET, QUERY)
+REC_WRITERS = (REWRITE, SETPERM, END, KILL, INCPOST)          # end in ptt.passwdSyncUpdate: a whole-record write-back
+NAMES = {SET: "SetUMoney", DE: "DeUMoney", GET: "MoneyOf", QUERY: "ptt.GetUser", REWRITE: "ptt.passwdSyncUpdate", SETPERM: "ptt.SetUserPerm", START: "ptt.pwcuStart",
+         END: "ptt.pwcuEnd", KILL: "ptt.killUser", PASSWD: "cmbbs.PasswdUpdatePasswd", EMAIL: "cmbbs.PasswdUpdateEmail", INCPOST: "ptt.pwcuIncNumPost"}
+
+
+class Layout:
+    def __init__(self, consts, lay):
+        self.maxu, self.recsz, self.off = consts
+        self.lvl, self.posts, self.pw, self.pwlen, self.em, self.emlen = lay[:6]
+        self.bools = list(lay[7:7 + lay[6]])
+
+    def canon(self, rec):
+        """a record that went through a UserecRaw value: encoding/binary reads a bool byte as != 0 and writes 0/1"""
+        b = bytearray(rec)
+        for o in self.bools:
+            b[o] = 1 if b[o] else 0
+        return bytes(b)
+
+    def money_of_rec(self, rec):
+        return struct.unpack("<i", rec[self.off:self.off + 4])[0]
+
+    def with_money(self, rec, m):
+        return rec[:self.off] + struct.pack("<i", m) + rec[self.off + 4:]
+
+
+def describe(op, L):
+    k, u = op[0], op[1]
+    if k in (SET, DE):
+        return "%s(%d, %d)" % (NAMES[k], u, op[2])
+    if k == GET:
+        return "MoneyOf(%d)" % u
+    if k == QUERY:
+        return "ptt.GetUser(id of slot %d).Money" % u
+    if k == REWRITE:
+        return "ptt.passwdSyncUpdate(%d, record carrying Money=%d)" % (u, L.money_of_rec(op[2]))
+    if k == SETPERM:
+        return "ptt.SetUserPerm(uid %d, record carrying Money=%d, perm %#x)" % (u, L.money_of_rec(op[3]), op[2])
+    if k == START:
+        return "ptt.pwcuStart(%d)" % u
+    if k == END:
+        return "NumPosts += %d; ptt.pwcuEnd(%d, record read by the earlier pwcuStart)" % (op[2], u)
+    if k == KILL:
+        return "ptt.killUser(%d)" % u
+    if k == INCPOST:
+        return "ptt.pwcuIncNumPost(uid %d)" % u
+    return "%s(%d, ...)" % (NAMES[k], u)
+
+
+def short(op):
+    """an operation for messages / evidence: record bytes abbreviated to the Money they carry"""
+    return [x if not isinstance(x, (bytes, bytearray)) else "<%d bytes>" % len(x) for x in op]
 
 
 class World:
-    """Plain-arithmetic reference: slot -> balance, and the bytes .PASSWDS must have."""
+    """Plain-arithmetic reference: slot -> balance, and the bytes .PASSWDS must have (the records the callers handed
+    over, with the balance in the Money field)."""
 
-    def __init__(self, init, maxu, recsz, off):
-        self.init, self.maxu, self.recsz, self.off = init, maxu, recsz, off
-        self.bal = {u: self.field(init, u) for u in range(1, maxu + 1)}
+    def __init__(self, init, L):
+        self.init, self.L = init, L
+        self.maxu, self.recsz, self.off = L.maxu, L.recsz, L.off
+        self.cur = bytearray(init)
+        self.touched = set()
+        self.pending = {}
+        self.bal = {u: self.field(init, u) for u in range(1, self.maxu + 1)}
 
     def pos(self, u):
         return self.recsz * (u - 1) + self.off
 
     def field(self, data, u):
-        b = data[self.pos(u):self.pos(u) + 4]
+        b = bytes(data[self.pos(u):self.pos(u) + 4])
         return struct.unpack("<i", b + b"\0" * (4 - len(b)))[0]
 
     def valid(self, u):
         return 1 <= u <= self.maxu
 
-    def step(self, kind, u, m):
-        """expected (status, value, code); None where the property text does not fix the outcome"""
-        if kind in (GET, QUERY):
+    def record(self, u):
+        return bytes(self.cur[self.recsz * (u - 1):self.recsz * u])
+
+    def put(self, at, bs):
+        self.cur[at:at + len(bs)] = bs
+        self.touched.update(range(at, at + len(bs)))
+
+    def footprint(self, op):
+        """bytes of .PASSWDS the operation may write (start, length)"""
+        k, u = op[0], op[1]
+        if k in REC_WRITERS:
+            return (self.recsz * (u - 1), self.recsz)
+        if k == PASSWD:
+            return (self.recsz * (u - 1) + self.L.pw, self.L.pwlen)
+        if k == EMAIL:
+            return (self.recsz * (u - 1) + self.L.em, self.L.emlen)
+        if k in (SET, DE):
+            return (self.pos(u), 4)
+        return (0, 0)
+
+    def step(self, op):
+        """expected (status, value, code); value None = not fixed by the property; None = outcome not fixed at all"""
+        k, u = op[0], op[1]
+        L = self.L
+        if k in (GET, QUERY):
             return (0, self.bal[u], 0) if self.valid(u) else None
+        if k == START:
+            rec = L.with_money(L.canon(self.record(u)), self.bal[u])
+            self.pending[u] = rec
+            return (0, self.bal[u], 0)                   # the record ptt hands to its callers shows the balance
         if not self.valid(u):
             return (3, None, None)                       # must fail, with an error, writing nothing
-        if kind == SET:
-            self.bal[u] = m
-        elif m < 0 and self.bal[u] < -m:
-            self.bal[u] = 0                              # a debit larger than the balance leaves 0
-        else:
-            self.bal[u] = self.bal[u] + m
-            assert I32MIN <= self.bal[u] <= I32MAX
-        return (0, self.bal[u], 0)
+        if k in (SET, DE):
+            m = op[2]
+            if k == SET:
+                self.bal[u] = m
+            elif m < 0 and self.bal[u] < -m:
+                self.bal[u] = 0                          # a debit larger than the balance leaves 0
+            else:
+                self.bal[u] = self.bal[u] + m
+                assert I32MIN <= self.bal[u] <= I32MAX
+            self.put(self.pos(u), struct.pack("<i", self.bal[u]))
+            return (0, self.bal[u], 0)
+        if k in REC_WRITERS:
+            # a whole-record write-back never changes a balance: the record lands in the file with the balance in it
+            if k == REWRITE:
+                rec = L.canon(op[2])
+            elif k == SETPERM:
+                rec = L.canon(op[3])
+                rec = rec[:L.lvl] + struct.pack("<I", op[2]) + rec[L.lvl + 4:]
+            elif k == KILL:
+                rec = b"\0" * self.recsz
+            else:
+                rec = self.pending.pop(u) if k == END else L.with_money(L.canon(self.record(u)), self.bal[u])
+                n = (struct.unpack("<I", rec[L.posts:L.posts + 4])[0] + (op[2] if k == END else 1)) % 2**32
+                rec = rec[:L.posts] + struct.pack("<I", n) + rec[L.posts + 4:]
+            self.put(self.recsz * (u - 1), L.with_money(rec, self.bal[u]))
+            return (0, None, 0)
+        if k in (PASSWD, EMAIL):
+            self.put(self.footprint(op)[0], bytes(op[2]))
+            return (0, None, 0)
+        raise ValueError(op)
+
+    def model_value(self, op):
+        """the value token of the driver for a writer (correspondence only, not part of the property)"""
+        k, u = op[0], op[1]
+        if k in (REWRITE, SETPERM):
+            rec = op[2] if k == REWRITE else op[3]
+            return self.bal[u] if self.valid(u) else self.L.money_of_rec(rec)
+        if k == END:
+            return self.bal[u]
+        return 0
 
     def expected_diffs(self):
-        d = {}
-        for u in range(1, self.maxu + 1):
-            want = struct.pack("<i", self.bal[u])
-            for k in range(4):
-                if self.init[self.pos(u) + k] != want[k]:
-                    d[self.pos(u) + k] = want[k]
-        return d
+        return {o: self.cur[o] for o in self.touched if self.cur[o] != self.init[o]}
 
 
-def expected_line(init, consts, ops):
+def expected_line(init, L, ops):
     """The whole result line plain arithmetic prescribes (an invalid slot: error -1/ErrInvalidUID for set/credit/debit; MoneyOf has no error channel and panics)."""
-    maxu, recsz, off = consts
-    w = World(init, maxu, recsz, off)
+    w = World(init, L)
 
     def obs():
         d = w.expected_diffs()
-        return [w.bal[u] for u in range(1, maxu + 1)] + [len(init), len(d)] + [x for k in sorted(d) for x in (k, d[k])]
+        return [w.bal[u] for u in range(1, L.maxu + 1)] + [len(init), len(d)] + [x for k in sorted(d) for x in (k, d[k])]
     t = [0] + obs()
-    for (k, u, m) in ops:
-        e = w.step(k, u, m)
-        t += ([1, 0, 0] if e is None else [3, -1, 1] if e[0] == 3 else list(e)) + [w.bal[u] if w.valid(u) else 0] + obs()
+    for op in ops:
+        u = op[1]
+        e = w.step(op)
+        if e is None:
+            o3 = [1, 0, 0]
+        elif e[0] == 3:
+            o3 = [3, -1 if op[0] in (SET, DE) else w.model_value(op), 1]
+        else:
+            o3 = [0, e[1] if e[1] is not None else w.model_value(op), 0]
+        t += o3 + [w.bal[u] if w.valid(u) else 0] + obs()
     return " ".join(str(x) for x in t)
 
 
@@ -85,27 +203,40 @@ def parse_result(line, maxu, nsteps):
     return 0, obs
 
 
+def op_group(o):
+    return " ".join(" ".join(str(b) for b in x) if isinstance(x, (bytes, bytearray)) else str(x) for x in o)
+
+
 def case_line(ftoks, ops):
-    return "1|" + ftoks + "".join("|%d %d %d" % o if o[0] in (SET, DE) else "|%d %d" % o[:2] for o in ops)
+    return "1|" + ftoks + "".join("|" + op_group(o if o[0] not in (GET, QUERY) else o[:2]) for o in ops)
 
 
-def judge(init, consts, ops, line):
+def judge(init, L, ops, line):
     """First step at which the implementation's own outputs contradict the property. -> None | (step index, key, text, expected, got)"""
-    maxu, recsz, off = consts
-    w = World(init, maxu, recsz, off)
+    maxu, recsz, off = L.maxu, L.recsz, L.off
+    w = World(init, L)
     st, obs = parse_result(line, maxu, len(ops))
     if st != 0:
         return (0, "driver", "case status %d" % st, "0", str(st))
     o0 = obs[0]
     if o0[2] != [w.bal[u] for u in range(1, maxu + 1)] or o0[3] != len(init) or o0[4]:
         return (0, "load", "after a cold load the segment's balances differ from the Money fields of .PASSWDS", str([w.bal[u] for u in range(1, maxu + 1)]), str(o0[2]))
-    for i, (kind, u, m) in enumerate(ops):
+    for i, op in enumerate(ops):
+        kind, u = op[0], op[1]
+        m = op[2] if kind in (SET, DE) else 0
         before = dict(w.bal)
-        exp = w.step(kind, u, m)
+        exp = w.step(op)
         out3, fld, shm, flen, d = obs[i + 1]
-        what = {SET: "SetUMoney(%d, %d)" % (u, m), DE: "DeUMoney(%d, %d)" % (u, m), GET: "MoneyOf(%d)" % u, QUERY: "ptt.GetUser(id of slot %d).Money" % u}[kind]
+        what = describe(op, L)
+        money_op = kind in MONEY_OPS
         if not w.valid(u):
-            cls = {SET: "set-invalid-slot", DE: "de-invalid-slot"}.get(kind, "get-invalid-slot")
+            cls = {SET: "set-invalid-slot", DE: "de-invalid-slot", GET: "get-invalid-slot", QUERY: "get-invalid-slot"}.get(kind, "writer-invalid-slot")
+        elif kind in REC_WRITERS:
+            cls = "record-rewrite"
+        elif kind in (PASSWD, EMAIL):
+            cls = "one-field-update"
+        elif kind == START:
+            cls = "record-query"
         elif kind == DE and m == I32MIN:
             cls = "debit-min-int32"
         elif u == maxu:
@@ -119,8 +250,8 @@ def judge(init, consts, ops, line):
                     prob = ("%s on an invalid slot must return an error; status %d (1 = panic, 0 = accepted)" % (what, out3[0]), "status 3", "status %d" % out3[0])
             elif out3[0] != 0:
                 prob = ("%s on a valid slot (balance %d) fails: status %d code %d; shared memory now holds %d, the Money field of the record %d" % (
-                    what, before.get(u, 0), out3[0], out3[2], shm[u - 1], fld), "0 %d" % exp[1], "%d %d %d" % out3)
-            elif out3[1] != exp[1]:
+                    what, before.get(u, 0), out3[0], out3[2], shm[u - 1], fld), "0 %s" % exp[1], "%d %d %d" % out3)
+            elif exp[1] is not None and out3[1] != exp[1]:
                 prob = ("%s with balance %d returns %d, arithmetic says %d" % (what, before.get(u, 0), out3[1], exp[1]), str(exp[1]), str(out3[1]))
         want_shm = [w.bal[x] for x in range(1, maxu + 1)]
         want_d = w.expected_diffs()
@@ -131,14 +262,24 @@ def judge(init, consts, ops, line):
         if prob is None and (d != want_d or flen != len(init)):
             offs = sorted(set(d.items()) ^ set(want_d.items()))
             slots = sorted({o // recsz + 1 for o, _ in offs})
-            infield = all(off <= o % recsz < off + 4 for o, _ in offs)
-            if flen != len(init) or not infield or any(s != u for s in slots):
+            fp = w.footprint(op)
+            money_offs = [o for o, _ in offs if off <= o % recsz < off + 4]
+            outside = [o for o, _ in offs if not (fp[0] <= o < fp[0] + fp[1]) and o not in money_offs]
+            if flen != len(init) or outside or any(s != u for s in slots):
                 cls2 = "frame"
-            else:
+            elif money_offs:
                 cls2 = cls
-            got_field = w.field(bytes(d.get(k, init[k]) if d.get(k, init[k]) >= 0 else 0 for k in range(w.pos(slots[0]), w.pos(slots[0]) + 4)), 1) if infield and slots else None
-            prob = ("after %s .PASSWDS differs from what arithmetic says at byte offsets %s (record(s) %s%s): shared memory %s, file field %s" % (
-                what, [o for o, _ in offs][:8], slots[:4], "" if infield else ", outside the Money field", shm[u - 1] if w.valid(u) else "-", got_field), str(sorted(want_d.items())), str(sorted(d.items())))
+            else:
+                cls2 = "record-content"       # inside the record just written, not the balance: the bytes are not the caller's
+            ms = sorted({o // recsz + 1 for o in money_offs})
+            got_field = struct.unpack("<i", bytes(d.get(k, init[k]) if d.get(k, init[k]) >= 0 else 0 for k in range(w.pos(ms[0]), w.pos(ms[0]) + 4)))[0] if ms else None
+            if ms and cls2 != "frame":
+                prob = ("after %s the three views of slot %d's balance disagree: shared memory %s, Money field of the record in .PASSWDS %s, arithmetic %s (balance before the call: %d)" % (
+                    what, ms[0], shm[ms[0] - 1], got_field, w.bal[ms[0]], before.get(ms[0], 0)), str(sorted(want_d.items())[:64]), str(sorted(d.items())[:64]))
+            else:
+                prob = ("after %s .PASSWDS differs from what arithmetic and the callers' records say at byte offsets %s (record(s) %s%s): shared memory %s, file field %s" % (
+                    what, [o for o, _ in offs][:8], slots[:4], "" if len(money_offs) == len(offs) else ", outside the Money field", shm[u - 1] if w.valid(u) else "-", got_field),
+                    str(sorted(want_d.items())[:64]), str(sorted(d.items())[:64]))
             cls = cls2
         if prob is None and w.valid(u) and fld != w.bal[u]:
             prob = ("after %s PasswdQuery(%d).Money = %d, arithmetic says %d" % (what, u, fld, w.bal[u]), str(w.bal[u]), str(fld))
@@ -164,7 +305,11 @@ def main():
     if model:
         cm = vf.run_model(model, ["2"])
         vf.correspond(c, "constants MAX_USERS / USEREC_RAW_SZ / Offsetof(Money)", ["2"], [" ".join(ci)], cm)
-    c.count(1, "constants")
+    li = vf.run_impl(impl, "C20", ["3"])[0].split()
+    if model:
+        vf.correspond(c, "layout: Offsetof(UserLevel / NumPosts / PasswdHash / Email), PASSLEN, EMAILSZ, offsets of the bool bytes", ["3"], [" ".join(li)], vf.run_model(model, ["3"]))
+    L = Layout(consts, [int(x) for x in li[1:]])
+    c.count(2, "constants")
 
     # ---------------------------------------------------------------- initial files
     fixture = open(os.path.join(vf.REPO, "ptt", "testcase", ".PASSWDS1"), "rb").read()
@@ -194,25 +339,95 @@ def main():
         ids.setdefault(uid_bytes, []).append(u)
     queryable = sorted(us[0] for k, us in ids.items() if k and len(us) == 1)
 
+    def money_step(w, fname, u, allow_query=True):
+        k = rng.choice([SET, DE, DE, DE, GET])
+        if k == GET and allow_query and fname.startswith("fixture") and u in queryable and rng.random() < 0.5:
+            k = QUERY
+        bal = w.bal.get(u, rng.choice([0, 5, -5]))
+        cand = [0, 1, -1, bal, -bal, bal + 1, -(bal + 1), bal - 1, I32MAX, I32MIN + 1, I32MIN, I32MAX - bal, rng.randrange(I32MIN, I32MAX + 1), rng.randrange(-1000, 1000)]
+        cand = [m for m in cand if I32MIN <= m <= I32MAX]
+        if k == DE:     # no step may overflow: either the debit saturates or the sum stays inside int32
+            cand = [m for m in cand if (m < 0 and bal < -m) or I32MIN <= bal + m <= I32MAX]
+        m = rng.choice(cand)
+        if k == SET and rng.random() < 0.7:
+            m = abs(m) if m != I32MIN else I32MAX          # mostly non-negative set amounts (C20_nonneg's premise)
+        return (k, u, m)
+
     def gen_history(fname, n, pool):
-        w = World(files[fname], maxu, recsz, off)
+        w = World(files[fname], L)
         ops = []
         for _ in range(n):
             r = rng.random()
             u = rng.choice(pool) if r < 0.9 else (rng.randrange(1, maxu + 1) if r < 0.97 else rng.choice([I32MAX, I32MIN, maxu + 2, -2, 2 * maxu]))
-            k = rng.choice([SET, DE, DE, DE, GET])
-            if k == GET and fname.startswith("fixture") and u in queryable and rng.random() < 0.5:
-                k = QUERY
-            bal = w.bal.get(u, rng.choice([0, 5, -5]))
-            cand = [0, 1, -1, bal, -bal, bal + 1, -(bal + 1), bal - 1, I32MAX, I32MIN + 1, I32MIN, I32MAX - bal, rng.randrange(I32MIN, I32MAX + 1), rng.randrange(-1000, 1000)]
-            cand = [m for m in cand if I32MIN <= m <= I32MAX]
-            if k == DE:     # no step may overflow: either the debit saturates or the sum stays inside int32
-                cand = [m for m in cand if (m < 0 and bal < -m) or I32MIN <= bal + m <= I32MAX]
-            m = rng.choice(cand)
-            if k == SET and rng.random() < 0.7:
-                m = abs(m) if m != I32MIN else I32MAX          # mostly non-negative set amounts (C20_nonneg's premise)
-            w.step(k, u, m)
-            ops.append((k, u, m))
+            op = money_step(w, fname, u)
+            w.step(op)
+            ops.append(op)
+        return ops
+
+    def caller_record(w, u, snaps, big):
+        """a record some caller hands to a whole-record write-back: read earlier (stale balance), built from scratch (zero balance), or arbitrary"""
+        r = rng.random()
+        if big and r < 0.5:
+            rec = bytes(rng.randrange(256) for _ in range(recsz))
+        elif r < 0.2:
+            rec = b"\0" * recsz
+        elif r < 0.6 and snaps.get(u):
+            rec = rng.choice(snaps[u])                                    # a copy read at an earlier point of the history
+        else:
+            rec = w.record(u) if w.valid(u) else files["fixture"][:recsz]
+        b = bytearray(L.canon(rec))
+        for _ in range(rng.randrange(0, 4)):                              # the caller changed a few fields
+            o = rng.choice([L.lvl, L.posts, L.pw, L.em, rng.randrange(recsz)])
+            if o not in L.bools and not (off <= o < off + 4):
+                b[o] = rng.randrange(256)
+        bal = w.bal.get(u, 0)
+        r = rng.random()
+        if r < 0.55:
+            money = rng.choice([0, 1, -1, bal + 1, bal - 1, -bal if bal != I32MIN else 0, I32MAX, I32MIN, rng.randrange(I32MIN, I32MAX + 1)])
+            money = min(max(money, I32MIN), I32MAX)
+            b[off:off + 4] = struct.pack("<i", money)                      # whatever Money the caller's copy carries
+        return bytes(b)
+
+    def gen_writer_history(fname, n, pool, big=False):
+        """money operations interleaved with every other writer of the same users' records"""
+        w = World(files[fname], L)
+        ops, snaps, open_starts, killed = [], {}, set(), set()
+        fixture_ids = fname.startswith("fixture")
+        for i in range(n):
+            r = rng.random()
+            u = rng.choice(pool) if r < 0.93 else rng.choice([0, -1, maxu + 1])
+            if not w.valid(u):
+                k = rng.choice([SET, DE, REWRITE, SETPERM, PASSWD, EMAIL])
+            elif u in open_starts and rng.random() < 0.35:
+                k = END
+            else:
+                k = rng.choice([SET, DE, DE, DE, GET, REWRITE, REWRITE, SETPERM, START, START, KILL, PASSWD, EMAIL, INCPOST])
+            if k == KILL and not (fixture_ids and u in queryable and u not in killed):
+                k = REWRITE
+            if k in (SET, DE, GET):
+                op = money_step(w, fname, u, allow_query=u not in killed)
+                if not w.valid(u) and op[0] in (GET, QUERY):
+                    op = (SET, u, 3)
+            elif k == REWRITE:
+                op = (REWRITE, u, caller_record(w, u, snaps, big))
+            elif k == SETPERM:
+                op = (SETPERM, u, rng.choice([0, 1, 0xffffffff, rng.randrange(2**32)]), caller_record(w, u, snaps, big))
+            elif k == START:
+                op = (START, u); open_starts.add(u)
+            elif k == END:
+                op = (END, u, rng.choice([0, 1, 1, 2**32 - 1, rng.randrange(2**32)])); open_starts.discard(u)
+            elif k == KILL:
+                op = (KILL, u); killed.add(u)
+            elif k == INCPOST:
+                op = (INCPOST, u)
+            else:
+                op = (k, u, bytes(rng.randrange(256) for _ in range(L.pwlen if k == PASSWD else L.emlen)))
+            if w.valid(u):
+                snaps.setdefault(u, []).append(w.record(u))
+            w.step(op)
+            ops.append(op)
+        for u in sorted(open_starts):      # every record read is written back in the end, however stale
+            ops.append((END, u, 1))
         return ops
 
     cases = []     # (file name, ops)
@@ -226,39 +441,74 @@ def main():
     for m in [I32MIN, I32MIN + 1, -1, 0, 1, I32MAX]:
         for b0 in [0, 1, 5, I32MAX]:
             cases.append(("zero", [(SET, maxu, b0), (DE, maxu, m if (m < 0 and b0 < -m) or b0 + m <= I32MAX else -m), (SET, 1, b0), (DE, 1, m if (m < 0 and b0 < -m) or b0 + m <= I32MAX else -m)]))
+    # every slot x every other writer of the record, each with a money operation between the read and the write-back
+    # or a caller record whose Money is not the balance
+    zero_rec = b"\0" * recsz
+    for u in range(1, maxu + 1):
+        own = fixture[recsz * (u - 1):recsz * u]
+        stale = L.with_money(L.canon(own), 7)
+        for fname in ("fixture", "ff"):
+            cases.append((fname, [(SET, u, 1000 + u), (START, u), (DE, u, 500), (DE, u, -300), (END, u, 1), (GET, u, 0),
+                                  (REWRITE, u, zero_rec), (GET, u, 0), (DE, u, -5000), (DE, u, 640),
+                                  (SETPERM, u, 0x1234 + u, stale), (PASSWD, u, bytes([65 + u % 26] * L.pwlen)), (EMAIL, u, bytes([97 + u % 26] * L.emlen)),
+                                  (DE, u, 1), (INCPOST, u), (GET, u, 0), (START, u), (SET, u, 0), (END, u, 2**32 - 1), (GET, u, 0)]))
+    for u in queryable:
+        cases.append(("fixture", [(DE, u, 640), (KILL, u), (GET, u, 0), (DE, u, -40), (START, u), (DE, u, 2), (END, u, 1)]))
+    for u in (0, -1, maxu + 1, I32MAX, I32MIN):
+        cases.append(("fixture+edge-balances", [(REWRITE, u, zero_rec), (SETPERM, u, 7, L.with_money(zero_rec, 9)), (PASSWD, u, bytes(L.pwlen)), (EMAIL, u, bytes(L.emlen)), (GET, 1, 0), (GET, maxu, 0)]))
     n_sweep = len(cases)
     n_hist = 2500 if thorough else 110
     names = sorted(files)
     for i in range(n_hist):
         fname = names[i % len(names)]
         cases.append((fname, gen_history(fname, rng.randrange(1, 61), slots_pool if i % 4 else list(range(1, maxu + 1)) + [0, maxu + 1])))
+    n_whist = 2000 if thorough else 90
+    for i in range(n_whist):
+        fname = names[i % len(names)]
+        big = i % 6 == 5
+        pool = [1, 2, maxu - 1, maxu] if i % 3 else sorted(rng.sample(range(1, maxu + 1), 3) + [maxu])
+        cases.append((fname, gen_writer_history(fname, rng.randrange(2, 9 if big else 31), pool, big)))
 
     lines = [case_line(ftoks[f], ops) for f, ops in cases]
     io = vf.run_impl(impl, "C20", lines, deadline_ms=60000)
     if model:
         mo = vf.run_model(model, lines)
-        vf.correspond(c, "histories of SetUMoney/DeUMoney/MoneyOf (returns, every balance of the segment, every changed byte of .PASSWDS)",
-                      ["1|<%s>|%s" % (f, " | ".join(map(str, ops))) for f, ops in cases], io, mo)
+        vf.correspond(c, "histories of SetUMoney/DeUMoney/MoneyOf interleaved with passwdSyncUpdate/SetUserPerm/pwcuStart..pwcuEnd/killUser/PasswdUpdatePasswd/PasswdUpdateEmail "
+                         "(returns, every balance of the segment, every changed byte of .PASSWDS)",
+                      ["1|<%s>|%s" % (f, " | ".join(str(short(o)) for o in ops)) for f, ops in cases], io, mo)
 
     # incomplete .PASSWDS (fewer records than MAX_USERS): outside the property's premise, model and code must still agree
-    short = [("fixture", 10 * recsz, [(SET, 3, 9), (SET, 20, 4), (DE, 20, -1), (SET, maxu - 1, 1)]), ("random", recsz * 7 + 100, [(SET, 8, 77), (DE, 8, -80), (GET, 30, 0)])]
-    sl = [case_line(" ".join(str(b) for b in files[f][:n]), ops) for f, n, ops in short]
+    shortf = [("fixture", 10 * recsz, [(SET, 3, 9), (SET, 20, 4), (DE, 20, -1), (SET, maxu - 1, 1)]), ("random", recsz * 7 + 100, [(SET, 8, 77), (DE, 8, -80), (GET, 30, 0)]),
+              ("fixture", 10 * recsz, [(START, 3), (DE, 3, 9), (END, 3, 1), (REWRITE, 12, zero_rec), (PASSWD, 14, bytes(L.pwlen)), (GET, 12, 0)])]
+    sl = [case_line(" ".join(str(b) for b in files[f][:n]), ops) for f, n, ops in shortf]
     so = vf.run_impl(impl, "C20", sl)
     if model:
-        vf.correspond(c, "short .PASSWDS", ["1|<%s[:%d]>|%s" % s for s in short], so, vf.run_model(model, sl))
-    c.count(sum(len(s[2]) for s in short), "steps on an incomplete file (correspondence only)")
+        vf.correspond(c, "short .PASSWDS", ["1|<%s[:%d]>|%s" % (f, n, [short(o) for o in ops]) for f, n, ops in shortf], so, vf.run_model(model, sl))
+    c.count(sum(len(s[2]) for s in shortf), "steps on an incomplete file (correspondence only)")
 
     def first_failure(fname, ops):
-        return judge(files[fname], consts, ops, vf.run_impl(impl, "C20", [case_line(ftoks[fname], ops)])[0])
+        # an END needs its START: a trial history that lost it is not a history
+        open_ = set()
+        for o in ops:
+            if o[0] == START:
+                open_.add(o[1])
+            elif o[0] == END:
+                if o[1] not in open_:
+                    return None
+                open_.discard(o[1])
+        return judge(files[fname], L, ops, vf.run_impl(impl, "C20", [case_line(ftoks[fname], ops)])[0])
 
     seen_keys = set()
     for ci_, ((fname, ops), line) in enumerate(zip(cases, io)):
-        w = World(files[fname], maxu, recsz, off)
-        for (k, u, m) in ops:
-            c.nontrivial((k, u, m, w.bal.get(u)))
-            w.step(k, u, m)
-        c.count(len(ops), "sweep steps" if ci_ < n_sweep else "generated-history steps")
-        bad = judge(files[fname], consts, ops, line)
+        w = World(files[fname], L)
+        nwriters = 0
+        for op in ops:
+            c.nontrivial((op, w.bal.get(op[1])))
+            nwriters += op[0] not in MONEY_OPS
+            w.step(op)
+        c.count(len(ops) - nwriters, "sweep steps" if ci_ < n_sweep else "generated-history steps")
+        c.count(nwriters, "record-writer steps between money operations")
+        bad = judge(files[fname], L, ops, line)
         if bad is None:
             continue
         step, key, text, exp, got = bad
@@ -275,12 +525,16 @@ def main():
                 cur, (step, key, text, exp, got) = trial, b2
             else:
                 j += 1
-        c.violation(key, "%s  [initial .PASSWDS: %s; history: %s]" % (text, fname, cur),
-                    {"cases": [case_line(ftoks[fname], cur)], "history": [list(o) for o in cur], "initial_file": fname, "expected": expected_line(files[fname], consts, cur), "expected_observation": exp, "got_observation": got})
-    c.sample({"initial_file": cases[n_sweep][0], "history (kind 1 set, 2 credit/debit, 3 MoneyOf, 4 ptt.GetUser; slot; amount)": [list(o) for o in cases[n_sweep][1][:12]],
+        c.violation(key, "%s  [initial .PASSWDS: %s; history: %s]" % (text, fname, [describe(o, L) for o in cur]),
+                    {"cases": [case_line(ftoks[fname], cur)], "history": [short(o) for o in cur], "history_readable": [describe(o, L) for o in cur], "initial_file": fname,
+                     "expected": expected_line(files[fname], L, cur), "expected_observation": exp, "got_observation": got})
+    c.sample({"initial_file": cases[n_sweep][0], "history (kind 1 set, 2 credit/debit, 3 MoneyOf, 4 ptt.GetUser; slot; amount)": [short(o) for o in cases[n_sweep][1][:12]],
               "result_prefix": " ".join(io[n_sweep].split()[:70])})
-    c.sample({"initial_file": "fixture", "history": [list(o) for o in cases[maxu - 1][1]], "note": "one of the per-slot sweeps (last slot)"})
-    c.cov["exhaustive_parts"] = ["all %d valid slots x one fixed 8-operation history" % maxu, "every slot in -2..2 and MAX_USERS-2..MAX_USERS+2 plus int32 extremes x {set, credit}",
+    c.sample({"initial_file": "fixture", "history": [short(o) for o in cases[maxu - 1][1]], "note": "one of the per-slot sweeps (last slot)"})
+    c.sample({"initial_file": cases[n_sweep + n_hist][0], "history": [describe(o, L) for o in cases[n_sweep + n_hist][1][:16]], "note": "a generated history with record writers between the money operations"})
+    c.cov["exhaustive_parts"] = ["all %d valid slots x 2 initial files x one fixed 20-operation history that puts a money operation between pwcuStart and pwcuEnd and writes back records "
+                                 "whose Money is stale / zero through passwdSyncUpdate, SetUserPerm, pwcuIncNumPost, PasswdUpdatePasswd, PasswdUpdateEmail" % maxu,
+                                 "killUser after a credit on every fixture slot with a unique id", "all %d valid slots x one fixed 8-operation history" % maxu, "every slot in -2..2 and MAX_USERS-2..MAX_USERS+2 plus int32 extremes x {set, credit}",
                                  "6 boundary amounts x 4 balances on the first and the last slot"]
     c.cov["histories"] = len(cases)
     c.cov["constants_compiled"] = {"MAX_USERS": maxu, "USEREC_RAW_SZ": recsz, "Offsetof(Money)": off}
@@ -288,7 +542,10 @@ def main():
     c.finish(rule="one case = a cold load of a %d-byte .PASSWDS (fixture, zero, 0xff, random bytes, fixture with boundary balances) followed by up to 60 operations over slots "
                   "{1,2,MAX-1,MAX,0,-1,MAX+1} (+ random and extreme slots) and amounts {0,+-1,+-balance,+-(balance+1),2^31-1,-2^31+1,-2^31,random} filtered so that no sum leaves int32; after every "
                   "step all balances of the segment and every changed byte of the file are compared with the extracted model and with plain arithmetic computed by the check; a step is non-trivial/"
-                  "distinct by (operation, slot, amount, balance before)" % (maxu * recsz),
+                  "distinct by (operation, slot, amount or record, balance before). Writer histories interleave the money operations with every other writer of the same user's record "
+                  "(ptt.passwdSyncUpdate with a caller record whose Money is stale / zero / arbitrary, ptt.SetUserPerm, pwcuStart .. money operations .. pwcuEnd, pwcuIncNumPost, killUser, "
+                  "cmbbs.PasswdUpdatePasswd / PasswdUpdateEmail; valid and invalid slots) and the same three-way agreement plus 'bytes outside the operation's footprint are unchanged' is "
+                  "decided after every step" % (maxu * recsz),
              assumptions=["one process at a time updates a balance (concurrent updates are outside the property)", ".PASSWDS exists with MAX_USERS records (short files are exercised for the correspondence only)",
                           "os.File Seek/Write and encoding/binary little-endian int32 are re-specified in the model (write_at, enc32) and exercised byte-exactly, not verified"])
 
